@@ -87,7 +87,8 @@ FamDef(f) ==
          [un |-> {"Erf", "Erfc", "LogErfc", "Gamma", "Lgamma"}, bin |-> {"Mul", "Add"}, par |-> {}, red |-> {},
           un1 |-> {}, bin1 |-> {}, cap |-> 3,
           consts |-> << <<"const", QF(3, 2)>>, <<"magic0", QF(1, 2)>> >>,
-          pts1 |-> <<R(-1, 2), R(1, 2), R(3, 2), R(5, 2)>>, pts2 |-> <<R(3, 4), R(2, 1)>>]
+          \* digamma / trigamma switch algorithms at -1, 0, 1, 2, 4 and 10
+          pts1 |-> <<R(-3, 2), R(-1, 2), R(1, 2), R(3, 2), R(3, 1), R(6, 1), R(12, 1)>>, pts2 |-> <<R(3, 4), R(2, 1)>>]
     [] f = "special2" ->
          [un |-> {}, bin |-> {"Mul"},
           par |-> {<<"Mlgamma", 1, 1>>, <<"Mlgamma", 3, 1>>,
